@@ -48,8 +48,9 @@ def add (a : Adj) (node ref : Int) : Status × Adj :=
   let lists :=
     if v ≥ a.lists.length then
       let orig := a.lists.length
+      -- `chunk = MAX(100 + MAX(0,node-orig), (REF_INT)(0.5*orig))`; the `MIN(chunk, REF_INT_MAX-orig)` clamp
+      -- only matters for node ids within 100 of `REF_INT_MAX` (32-bit wrap-around is not modelled)
       let chunk := Nat.max (100 + (v - orig)) (orig / 2)
-      let chunk := Nat.min chunk (INT_MAX - orig)
       a.lists ++ List.replicate chunk []
     else a.lists
   (.ok, ⟨lists.set v (ref :: lists.getD v [])⟩)
